@@ -10,7 +10,7 @@
 typedef struct class_std____cxx11__basic_string vstr_t;
 
 typedef struct class_std____cxx11__basic_string vstr_t2;
-static _Bool fs_mode; static _Bool fs_compile_ok[6], fs_match[6][10]; static void *fs_compiled[6];
+static _Bool fs_mode; static _Bool fs_compile_ok[10], fs_match[10][10]; static void *fs_compiled[10];
 static int pat_id(u8 c);
 static int subj_id(const u8 *s) { u8 c = s[0]; return c == 'f' ? 0 : c == 'g' ? 1 : c == 'h' ? 2 : c == '1' ? 3 : c == '2' ? 4 : c == 'a' ? 5 : c == 'b' ? 6 : c == 'i' ? 7 : c == 'l' ? 8 : 9; }
 static struct class_std____cxx11__basic_string fn_qname, ret_tname, sym_name, sym_version, alias_name[2];
@@ -32,7 +32,7 @@ u32 regexec(void *preg, u8 *str, u64 n, void *m, u32 flags)
   PROP(preg != 0, "C25-regexec-null: regexec is called without a compiled pattern");
   if (fs_mode) {
     int subj = subj_id(str);    /* the answer is a function of (pattern, subject CONTENT); subjects differ in their first byte */
-    for (int i = 0; i < 6; i++) if (preg == fs_compiled[i] && fs_compiled[i]) return fs_match[i][subj] ? 0 : 1;
+    for (int i = 0; i < 10; i++) if (preg == fs_compiled[i] && fs_compiled[i]) return fs_match[i][subj] ? 0 : 1;
     PROP(preg == 0, "C25-regexec-uncompiled: regexec is called on a pattern that was not successfully compiled");
     return 1;
   }
@@ -130,7 +130,7 @@ void _ZN7abigail2ir20get_type_declarationESt10shared_ptrINS0_9type_baseEE(void *
 
 /* regexec oracle for this entry: pattern id by first character, answer arbitrary per (pattern, subject) with subject
    identified by its address among the harness strings */
-static int pat_id(u8 c) { return c == 'p' ? 0 : c == 'n' ? 1 : c == 's' ? 2 : c == 't' ? 3 : c == 'v' ? 4 : 5; }
+static int pat_id(u8 c) { return c == 'p' ? 0 : c == 'n' ? 1 : c == 's' ? 2 : c == 't' ? 3 : c == 'v' ? 4 : c == 'F' ? 6 : c == 'G' ? 7 : c == 'S' ? 8 : c == 'T' ? 9 : 5; }
 void h_fn_suppr(void)
 {
   fs_mode = 1;
@@ -419,5 +419,54 @@ void h_type_kind(void)
   PROP(!(r && consider && !fits), "C24-type-kind-never-over-suppresses: a section with a type_kind never matches a type of another kind");
   PROP((r != 0) == (!consider || fits), "C24-type-kind-exact: with only a type_kind given, the section matches exactly the types of that kind (class also covers struct)");
   COVER(r && consider && tk == 2); COVER(!r && tk == 1 && actual_kind == 2); COVER(r && !consider); COVER(r && tk == 7);
+  WITNESS_END();
+}
+
+/* ---------------------------------------------------------------------------------------------------------------
+   file_name_regexp / file_name_not_regexp / soname_regexp / soname_not_regexp (C22: a section whose file or SONAME
+   patterns match neither binary changes nothing): the real suppresses_function with a diff context, on a real section that
+   names the function exactly and gives any subset of the four pattern properties, for two binaries with arbitrary
+   regex outcomes per (pattern, path) and (pattern, soname). */
+static u64 ctxt_obj2[4], cdiff_obj[4], corpus_obj[2][4];
+static sp_t cdiff_sp;
+static vstr_t bin_path[2], bin_soname[2];
+void *_ZNK7abigail10comparison12diff_context15get_corpus_diffEv(void *c) { cdiff_sp.p = cdiff_obj; cdiff_sp.c = 0; return &cdiff_sp; }
+void _ZNK7abigail10comparison11corpus_diff12first_corpusEv(void *sret, void *d) { sp_t *r = sret; r->p = corpus_obj[0]; r->c = 0; }
+void _ZNK7abigail10comparison11corpus_diff13second_corpusEv(void *sret, void *d) { sp_t *r = sret; r->p = corpus_obj[1]; r->c = 0; }
+vstr_t *_ZNK7abigail2ir6corpus8get_pathB5cxx11Ev(void *c) { return &bin_path[c == (void *)corpus_obj[1]]; }
+vstr_t *_ZN7abigail2ir6corpus10get_sonameB5cxx11Ev(void *c) { return &bin_soname[c == (void *)corpus_obj[1]]; }
+static int pat_ok(int cfg, int id) { return cfg && fs_compile_ok[id]; }
+static int both_match(int hasP, int idP, int hasN, int idN, int subj)
+{ /* suppression_base::priv::matches_binary_name / matches_soname */
+  if (pat_ok(hasP, idP) && !fs_match[idP][subj]) return 0;
+  if (pat_ok(hasN, idN) && fs_match[idN][subj]) return 0;
+  return pat_ok(hasP, idP) || pat_ok(hasN, idN);
+}
+void h_file_constraints(void)
+{
+  fs_mode = 1;
+  _Bool cfg[4]; for (int i = 0; i < 4; i++) cfg[i] = nondet_bool();
+  for (int i = 0; i < 10; i++) { fs_compile_ok[i] = nondet_bool(); fs_compiled[i] = 0; for (int j = 0; j < 10; j++) fs_match[i][j] = nondet_bool(); }
+  has_sym = 0;
+  vs_make(&fn_qname, "f"); fn_qname_i.raw = &fn_qname;
+  vs_make(&bin_path[0], "a"); vs_make(&bin_path[1], "b"); vs_make(&bin_soname[0], "1"); vs_make(&bin_soname[1], "2");
+  fn_vt[0] = 0; fn_vt[3 + 9] = (void *)qn_fn; fn_obj[0] = (u64)&fn_vt[3];
+  ncompiled = 0;
+  void *s = w_fs_file_new((void *)cfg);
+  u8 r = w_fs_suppresses_ctx(s, (void *)fn_obj, 1, (void *)ctxt_obj2);
+  /* subjects: paths "a","b" are 5,6; sonames "1","2" are 3,4 (subj_id) */
+  int file_prop = cfg[0] || cfg[1], soname_prop = cfg[2] || cfg[3];
+  int file_ok = !file_prop || both_match(cfg[0], 6, cfg[1], 7, 5) || both_match(cfg[0], 6, cfg[1], 7, 6);
+  int soname_ok = !soname_prop || both_match(cfg[2], 8, cfg[3], 9, 3) || both_match(cfg[2], 8, cfg[3], 9, 4);
+  if (cfg[0] && fs_compile_ok[6] && !fs_match[6][5] && !fs_match[6][6])
+    PROP(!r, "C22-file-name-regexp-matches-neither: a section whose file_name_regexp matches neither binary suppresses nothing");
+  if (cfg[1] && fs_compile_ok[7] && fs_match[7][5] && fs_match[7][6])
+    PROP(!r, "C22-file-name-not-regexp-matches-both: a section whose file_name_not_regexp matches both binaries suppresses nothing");
+  if (cfg[2] && fs_compile_ok[8] && !fs_match[8][3] && !fs_match[8][4])
+    PROP(!r, "C22-soname-regexp-matches-neither: a section whose soname_regexp matches neither SONAME suppresses nothing");
+  if (cfg[3] && fs_compile_ok[9] && fs_match[9][3] && fs_match[9][4])
+    PROP(!r, "C22-soname-not-regexp-matches-both: a section whose soname_not_regexp matches both SONAMEs suppresses nothing");
+  PROP((r != 0) == (file_ok && soname_ok), "C23-file-constraints-exact: a section naming the function hides it exactly when its file and SONAME constraints accept one of the two binaries");
+  COVER(r && cfg[0] && cfg[2]); COVER(!r && cfg[1]); COVER(r && !file_prop && !soname_prop); COVER(!r && cfg[0] && !fs_compile_ok[6]);
   WITNESS_END();
 }
